@@ -4,21 +4,32 @@
    Numbers: a CDF value is the exact rational c/(2H) (H > 0: the value 0.5), a p-value P/(2H), the
    threshold p_th = T/(2H) - the same common denominator S = 2H as in Model/Holm.v; a t statistic
    is an integer over some common denominator (only order and negation matter); the degrees of
-   freedom nu are an opaque index.  scipy's CDFs are NOT modelled: they are Section variables and
-   what is assumed about them is written as Section hypotheses (assumptions about scipy, listed in
-   the theorem comment of Props/C11.v).  What the code itself does with a CDF value IS modelled:
+   freedom nu are an opaque index.  scipy's CDF is NOT modelled: it is a Section variable and
+   what is assumed about it is written as Section hypotheses (assumptions about scipy, listed in
+   the theorem comment of Props/C11.v).  What the code itself does with a CDF value IS modelled
+   (Model/Welch.v: clipc, pval_of, p_of_cdf):
      cdf = np.where(np.isfinite(cdf), cdf, 0.5)          (None = NaN)
      cdf = np.clip(cdf, eps, ceil)
-     pval = np.where(cdf < 0.5, 2.0*cdf, 2.0*(1.0-cdf)) *)
+     pval = np.where(cdf < 0.5, 2.0*cdf, 2.0*(1.0-cdf))
+
+   PREMISES (re-stated after the audit, defect 1).  The former premise
+   `T <= 2 * norm_cdf (- b)` is FALSE of the real boring_t_from_p_value (np.interp of the concave
+   inverse overshoots: 2*norm.cdf(-boring_t) = p_th*(1 - 1.4e-6 .. 2.2e-5)), and the former
+   `t_sym` was assumed for every t, which no saturating binary64 CDF satisfies.  They are
+   replaced by what the real values do satisfy and what the harness checks numerically on every
+   run for every nu that occurs (harness/props/c11.py: boring_premise_cases):
+     end_lo : t_cdf nu (-b) = Some c  ->  T <= 2 * c            (2*t.cdf(-boring_t, nu) >= p_th)
+     end_hi : t_cdf nu b = Some c     ->  T <= 2 * (2H - c)     (2*(1 - t.cdf(boring_t, nu)) >= p_th)
+     t_mono : monotone in t ON [-b, b] only
+     t_nan  : NaN-ness depends on nu only, on [-b, b]
+   No symmetry and no normal CDF are needed any more.  end_lo / end_hi hold for the real functions
+   iff nu is below about 3e6 .. 2.6e7 (depending on p_th; measured); above, the Student tail is
+   so close to the normal one that the interpolation error of boring_t decides: see
+   boring_unsound_without_end_lo (the conclusion is then false) and finding C11-boring-huge-nu. *)
 From Coq Require Import ZArith List Bool Lia.
-From CTM Require Import Base.Sx Base.ListX Model.Holm Proofs.HolmP.
+From CTM Require Import Base.Sx Base.ListX Model.Holm Model.Welch Proofs.HolmP.
 Import ListNotations.
 Open Scope Z_scope.
-
-Definition clipc (lo hi c : Z) : Z := Z.min hi (Z.max lo c).
-Definition pval_of (S c : Z) : Z := if 2 * c <? S then 2 * c else 2 * (S - c).
-Definition p_of_cdf (H lo hi : Z) (c : option Z) : Z :=
-  pval_of (2 * H) (clipc lo hi (match c with Some v => v | None => H end)).
 
 Definition gene := (Z * Z)%type.                       (* (nu, t) *)
 (* exact_welch_t_test: the p-value of one gene *)
@@ -49,10 +60,87 @@ Lemma Forall2_map_l' {A B C} (R : B -> C -> Prop) (f : A -> B) : forall l l',
   Forall2 (fun a c => R (f a) c) l l' -> Forall2 R (map f l) l'.
 Proof. intros l l' H. induction H; cbn; constructor; assumption. Qed.
 
+(* ------------------------------------------------------------------ *)
+(* generic form: any type of gene, the oracle's CDF value of each gene, any skipping rule.
+   Premise: the exact CDF value c of a SKIPPED gene satisfies p_th <= 2c and p_th <= 2(1 - c),
+   i.e. its exact two-sided p-value, before clipping, is >= p_th. *)
+Section BoringG.
+  Variable G : Type.
+  Variables H lo hi T : Z.
+  Variable cdfv : G -> option Z.
+  Variable brg : G -> bool.
+  Hypothesis H_pos : 0 < H.
+  Hypothesis clip_lo : 0 <= lo <= H.
+  Hypothesis clip_hi : H <= hi <= 2 * H.
+  Hypothesis T_le_1 : T <= 2 * H.
+  Hypothesis skipped_ge : forall g c, brg g = true -> cdfv g = Some c -> T <= 2 * c /\ T <= 2 * (2 * H - c).
+
+  Definition exactG (g : G) : Z := p_of_cdf H lo hi (cdfv g).
+  Definition skipG (g : G) : Z := if brg g then p_of_cdf H lo hi (Some H) else exactG g.
+
+  Lemma boringG_exact_ge : forall g, brg g = true -> T <= exactG g.
+  Proof.
+    intros g Hb. unfold exactG. destruct (cdfv g) as [c|] eqn:E.
+    - destruct (skipped_ge g c Hb E) as [L U].
+      unfold p_of_cdf, pval_of, clipc.
+      destruct (2 * Z.min hi (Z.max lo c) <? 2 * H) eqn:E2; [apply Z.ltb_lt in E2 | apply Z.ltb_ge in E2]; lia.
+    - change (p_of_cdf H lo hi None) with (p_of_cdf H lo hi (Some H)).
+      rewrite p_of_half by lia. exact T_le_1.
+  Qed.
+
+  Lemma exactG_range : forall g, 0 <= exactG g <= 2 * H.
+  Proof. intros g. apply p_of_cdf_range; lia. Qed.
+
+  Theorem boringG_sound : forall genes p',
+    Forall (fun x => 0 <= x <= 2 * H) p' ->
+    Forall2 (fun g v' => if brg g then T <= v' else v' = exactG g) genes p' ->
+    let p := map exactG genes in
+    Forall (fun x => 0 <= x <= 2 * H) p /\
+    Forall2 (fun g v => brg g = true -> T <= v) genes p /\
+    map (fun v => v <? T) (correct_ttest (2 * H) 0 p) = map (fun v => v <? T) (correct_ttest (2 * H) 0 p') /\
+    map (fun v => v <? T) (approx_correct_ttest (2 * H) T p') = map (fun v => v <? T) (correct_ttest (2 * H) 0 p).
+  Proof.
+    intros genes p' Hr HF p.
+    assert (Hp : Forall (fun x => 0 <= x <= 2 * H) p).
+    { unfold p. apply Forall_forall. intros x Hx. apply in_map_iff in Hx. destruct Hx as (g & <- & _).
+      apply exactG_range. }
+    assert (HB : Forall2 (fun g v => brg g = true -> T <= v) genes p).
+    { unfold p. clear HF Hp p. induction genes as [|g t IH]; cbn [map]; [constructor|]. constructor; [|exact IH].
+      apply boringG_exact_ge. }
+    split; [exact Hp|]. split; [exact HB|].
+    apply boring_sound_full; [exact Hp | exact Hr | exact T_le_1 |].
+    unfold p. apply Forall2_map_l'. clear Hr Hp HB p.
+    induction HF as [|g v' genes p' Hg HF IH]; constructor; [|exact IH].
+    unfold same_or_above. destruct (brg g) eqn:Eb.
+    - right. split; [|exact Hg]. apply boringG_exact_ge. exact Eb.
+    - left. symmetry. exact Hg.
+  Qed.
+
+  Corollary boringG_sound_code : forall genes,
+    let p := map exactG genes in
+    let p' := map skipG genes in
+    (forall g, brg g = true -> skipG g = 2 * H) /\
+    map (fun v => v <? T) (correct_ttest (2 * H) 0 p) = map (fun v => v <? T) (correct_ttest (2 * H) 0 p') /\
+    map (fun v => v <? T) (approx_correct_ttest (2 * H) T p') = map (fun v => v <? T) (correct_ttest (2 * H) 0 p).
+  Proof.
+    intros genes p p'.
+    assert (Hs : forall g, brg g = true -> skipG g = 2 * H).
+    { intros g Hb. unfold skipG. rewrite Hb. apply p_of_half; lia. }
+    split; [exact Hs|].
+    destruct (boringG_sound genes p') as (_ & _ & R1 & R2); [| |split; [exact R1 | exact R2]].
+    - unfold p'. apply Forall_forall. intros x Hx. apply in_map_iff in Hx. destruct Hx as (g & <- & _).
+      unfold skipG. destruct (brg g); [apply p_of_cdf_range; lia | apply exactG_range].
+    - unfold p'. clear p p'. induction genes as [|g t IH]; cbn [map]; [constructor|]. constructor; [|exact IH].
+      destruct (brg g) eqn:Eb; [rewrite (Hs g Eb); exact T_le_1 | unfold skipG; rewrite Eb; reflexivity].
+  Qed.
+End BoringG.
+
+(* ------------------------------------------------------------------ *)
+(* genes (nu, t): the premise about the skipped genes follows from the two END POINTS
+   +-boring_t per nu and monotonicity between them *)
 Section Boring.
   Variables H lo hi T b : Z.
   Variable t_cdf : Z -> Z -> option Z.        (* scipy.stats.t.cdf(t, df=nu); None = NaN *)
-  Variable norm_cdf : Z -> Z.                 (* scipy.stats.norm.cdf *)
 
   (* the setting *)
   Hypothesis H_pos : 0 < H.
@@ -60,35 +148,15 @@ Section Boring.
   Hypothesis clip_hi : H <= hi <= 2 * H.      (* 0.5 <= ceil = 1 - epsneg <= 1 *)
   Hypothesis T_le_1 : T <= 2 * H.             (* p_th <= 1 *)
   Hypothesis b_nonneg : 0 <= b.
-  (* how boring_t_from_p_value chooses boring_t: 2 * norm_cdf(-boring_t) >= p_th *)
-  Hypothesis b_choice : T <= 2 * norm_cdf (- b).
 
-  (* ASSUMPTIONS ABOUT SCIPY (not proved) *)
-  Hypothesis t_mono : forall nu a a' c c', a <= a' ->
+  (* ABOUT THE REAL boring_t AND scipy's CDF AT IT (not proved; checked numerically by the harness
+     for every nu that occurs): the two-sided p-values at the two end points are >= p_th *)
+  Hypothesis end_lo : forall nu c, t_cdf nu (- b) = Some c -> T <= 2 * c.
+  Hypothesis end_hi : forall nu c, t_cdf nu b = Some c -> T <= 2 * (2 * H - c).
+  (* ASSUMPTIONS ABOUT SCIPY (not proved), on the range used only *)
+  Hypothesis t_mono : forall nu a a' c c', - b <= a -> a <= a' -> a' <= b ->
     t_cdf nu a = Some c -> t_cdf nu a' = Some c' -> c <= c'.
-  Hypothesis t_sym : forall nu a c, t_cdf nu a = Some c -> t_cdf nu (- a) = Some (2 * H - c).
-  Hypothesis t_nan : forall nu a a', t_cdf nu a = None -> t_cdf nu a' = None.
-  Hypothesis t_tail : forall nu x c, 0 <= x -> t_cdf nu (- x) = Some c -> norm_cdf (- x) <= c.
-
-  (* |t| <= boring_t  =>  the exact two-sided p-value is >= p_th *)
-  Lemma boring_exact_ge : forall nu t, - b <= t <= b -> T <= exact_p t_cdf H lo hi (nu, t).
-  Proof.
-    intros nu t Ht. unfold exact_p. cbn [fst snd].
-    destruct (t_cdf nu t) as [c|] eqn:E.
-    - destruct (t_cdf nu (- b)) as [cb|] eqn:Eb.
-      2:{ rewrite (t_nan nu (- b) t Eb) in E. discriminate E. }
-      pose proof (t_mono nu (- b) t cb c ltac:(lia) Eb E) as M1.
-      pose proof (t_sym nu (- b) cb Eb) as Es. rewrite Z.opp_involutive in Es.
-      pose proof (t_mono nu t b c (2 * H - cb) ltac:(lia) E Es) as M2.
-      pose proof (t_tail nu b cb b_nonneg Eb) as Tl.
-      unfold p_of_cdf, pval_of, clipc.
-      destruct (2 * Z.min hi (Z.max lo c) <? 2 * H) eqn:E2; [apply Z.ltb_lt in E2 | apply Z.ltb_ge in E2]; lia.
-    - change (p_of_cdf H lo hi None) with (p_of_cdf H lo hi (Some H)).
-      rewrite p_of_half by lia. exact T_le_1.
-  Qed.
-
-  Lemma exact_p_range : forall g, 0 <= exact_p t_cdf H lo hi g <= 2 * H.
-  Proof. intros g. apply p_of_cdf_range; lia. Qed.
+  Hypothesis t_nan : forall nu a a', - b <= a <= b -> - b <= a' <= b -> t_cdf nu a = None -> t_cdf nu a' = None.
 
   Lemma boring_bounds : forall g, boring b g = true -> - b <= snd g <= b.
   Proof.
@@ -96,10 +164,31 @@ Section Boring.
     destruct Hb as [H1 H2]. apply Z.ltb_ge in H1, H2. lia.
   Qed.
 
-  (* c11_boring_t_sound: replace the p-value of every gene with |t| <= boring_t by ANY value
-     >= p_th (and keep the exact p-value of the others): no decision of the full Holm correction
-     changes, and the restricted correction on the replaced values decides like the full
-     correction on the exact ones *)
+  Lemma skipped_ge_nu_t : forall (g : gene) c, boring b g = true -> t_cdf (fst g) (snd g) = Some c ->
+    T <= 2 * c /\ T <= 2 * (2 * H - c).
+  Proof.
+    intros [nu t] c Hb E. cbn [fst snd] in *. pose proof (boring_bounds (nu, t) Hb) as Ht. cbn [snd] in Ht.
+    destruct (t_cdf nu (- b)) as [cl|] eqn:El.
+    2:{ rewrite (t_nan nu (- b) t ltac:(lia) Ht El) in E. discriminate E. }
+    destruct (t_cdf nu b) as [ch|] eqn:Eh.
+    2:{ rewrite (t_nan nu b t ltac:(lia) Ht Eh) in E. discriminate E. }
+    pose proof (t_mono nu (- b) t cl c ltac:(lia) ltac:(lia) ltac:(lia) El E) as M1.
+    pose proof (t_mono nu t b c ch ltac:(lia) ltac:(lia) ltac:(lia) E Eh) as M2.
+    pose proof (end_lo nu cl El). pose proof (end_hi nu ch Eh). lia.
+  Qed.
+
+  (* |t| <= boring_t  =>  the exact two-sided p-value is >= p_th *)
+  Lemma boring_exact_ge : forall nu t, - b <= t <= b -> T <= exact_p t_cdf H lo hi (nu, t).
+  Proof.
+    intros nu t Ht.
+    apply (boringG_exact_ge gene H lo hi T (fun g => t_cdf (fst g) (snd g)) (boring b)
+             H_pos clip_lo clip_hi T_le_1 skipped_ge_nu_t (nu, t)).
+    unfold boring. cbn [snd]. apply negb_true_iff. apply orb_false_iff. split; apply Z.ltb_ge; lia.
+  Qed.
+
+  Lemma exact_p_range : forall g, 0 <= exact_p t_cdf H lo hi g <= 2 * H.
+  Proof. intros g. apply p_of_cdf_range; lia. Qed.
+
   Theorem boring_t_sound : forall genes p',
     Forall (fun x => 0 <= x <= 2 * H) p' ->
     Forall2 (fun g v' => if boring b g then T <= v' else v' = exact_p t_cdf H lo hi g) genes p' ->
@@ -109,23 +198,10 @@ Section Boring.
     map (fun v => v <? T) (correct_ttest (2 * H) 0 p) = map (fun v => v <? T) (correct_ttest (2 * H) 0 p') /\
     map (fun v => v <? T) (approx_correct_ttest (2 * H) T p') = map (fun v => v <? T) (correct_ttest (2 * H) 0 p).
   Proof.
-    intros genes p' Hr HF p.
-    assert (Hp : Forall (fun x => 0 <= x <= 2 * H) p).
-    { unfold p. apply Forall_forall. intros x Hx. apply in_map_iff in Hx. destruct Hx as (g & <- & _).
-      apply exact_p_range. }
-    assert (HB : Forall2 (fun g v => boring b g = true -> T <= v) genes p).
-    { unfold p. clear HF Hp p. induction genes as [|g t IH]; cbn [map]; [constructor|]. constructor; [|exact IH].
-      intros Hb. destruct g as [nu tt]. apply boring_exact_ge. apply (boring_bounds (nu, tt) Hb). }
-    split; [exact Hp|]. split; [exact HB|].
-    apply boring_sound_full; [exact Hp | exact Hr | exact T_le_1 |].
-    unfold p. apply Forall2_map_l'. clear Hr Hp HB p.
-    induction HF as [|g v' genes p' Hg HF IH]; constructor; [|exact IH].
-    unfold same_or_above. destruct (boring b g) eqn:Eb.
-    - right. split; [|exact Hg]. destruct g as [nu tt]. apply boring_exact_ge. apply (boring_bounds (nu, tt) Eb).
-    - left. symmetry. exact Hg.
+    exact (boringG_sound gene H lo hi T (fun g => t_cdf (fst g) (snd g)) (boring b)
+             H_pos clip_lo clip_hi T_le_1 skipped_ge_nu_t).
   Qed.
 
-  (* ... in particular for the values the code uses: cdf = 0.5, i.e. p = 1, for the skipped genes *)
   Corollary boring_t_sound_code : forall genes,
     let p := map (exact_p t_cdf H lo hi) genes in
     let p' := map (skip_p t_cdf H lo hi b) genes in
@@ -133,38 +209,53 @@ Section Boring.
     map (fun v => v <? T) (correct_ttest (2 * H) 0 p) = map (fun v => v <? T) (correct_ttest (2 * H) 0 p') /\
     map (fun v => v <? T) (approx_correct_ttest (2 * H) T p') = map (fun v => v <? T) (correct_ttest (2 * H) 0 p).
   Proof.
-    intros genes p p'.
-    assert (Hs : forall g, boring b g = true -> skip_p t_cdf H lo hi b g = 2 * H).
-    { intros g Hb. unfold skip_p. rewrite Hb. apply p_of_half; lia. }
-    split; [exact Hs|].
-    destruct (boring_t_sound genes p') as (_ & _ & R1 & R2); [| |split; [exact R1 | exact R2]].
-    - unfold p'. apply Forall_forall. intros x Hx. apply in_map_iff in Hx. destruct Hx as (g & <- & _).
-      unfold skip_p. destruct (boring b g); [apply p_of_cdf_range; lia | apply exact_p_range].
-    - unfold p'. clear p p'. induction genes as [|g t IH]; cbn [map]; [constructor|]. constructor; [|exact IH].
-      destruct (boring b g) eqn:Eb; [rewrite (Hs g Eb); exact T_le_1 | unfold skip_p; rewrite Eb; reflexivity].
+    exact (boringG_sound_code gene H lo hi T (fun g => t_cdf (fst g) (snd g)) (boring b)
+             H_pos clip_lo clip_hi T_le_1 skipped_ge_nu_t).
   Qed.
 End Boring.
 
 (* a toy instance on which every hypothesis holds (S = 64, so 0.5 = 32/64):
-   t_cdf(t, nu) = clamp(32 + 8t, 1, 63)/64, NaN for nu <= 0;  norm_cdf(t) = clamp(32 + 16t, 0, 64)/64 *)
+   t_cdf(t, nu) = clamp(32 + 8t, 1, 63)/64 (saturating, like a binary64 CDF), NaN for nu <= 0; boring_t = 1, p_th = 20/64 *)
 Definition toy_t_cdf (nu t : Z) : option Z := if nu <=? 0 then None else Some (Z.max 1 (Z.min 63 (32 + 8 * t))).
-Definition toy_norm_cdf (t : Z) : Z := Z.max 0 (Z.min 64 (32 + 16 * t)).
 
 Lemma toy_hyps :
-  (forall nu a a' c c', a <= a' -> toy_t_cdf nu a = Some c -> toy_t_cdf nu a' = Some c' -> c <= c') /\
-  (forall nu a c, toy_t_cdf nu a = Some c -> toy_t_cdf nu (- a) = Some (2 * 32 - c)) /\
-  (forall nu a a', toy_t_cdf nu a = None -> toy_t_cdf nu a' = None) /\
-  (forall nu x c, 0 <= x -> toy_t_cdf nu (- x) = Some c -> toy_norm_cdf (- x) <= c) /\
-  20 <= 2 * toy_norm_cdf (- 1).
+  (forall nu c, toy_t_cdf nu (- 1) = Some c -> 20 <= 2 * c) /\
+  (forall nu c, toy_t_cdf nu 1 = Some c -> 20 <= 2 * (2 * 32 - c)) /\
+  (forall nu a a' c c', - 1 <= a -> a <= a' -> a' <= 1 ->
+      toy_t_cdf nu a = Some c -> toy_t_cdf nu a' = Some c' -> c <= c') /\
+  (forall nu a a', - 1 <= a <= 1 -> - 1 <= a' <= 1 -> toy_t_cdf nu a = None -> toy_t_cdf nu a' = None).
 Proof.
-  unfold toy_t_cdf, toy_norm_cdf. split; [|split; [|split; [|split]]].
-  - intros nu a a' c c' Ha. destruct (nu <=? 0); [discriminate|]. intros E E'.
+  unfold toy_t_cdf. split; [|split; [|split]].
+  - intros nu c. destruct (nu <=? 0); [discriminate|]. intros E. inversion E. vm_compute. discriminate.
+  - intros nu c. destruct (nu <=? 0); [discriminate|]. intros E. inversion E. vm_compute. discriminate.
+  - intros nu a a' c c' _ Ha _. destruct (nu <=? 0); [discriminate|]. intros E E'.
     assert (Ec : Z.max 1 (Z.min 63 (32 + 8 * a)) = c) by congruence.
     assert (Ec' : Z.max 1 (Z.min 63 (32 + 8 * a')) = c') by congruence. lia.
-  - intros nu a c. destruct (nu <=? 0); [discriminate|]. intros E.
-    assert (Ec : Z.max 1 (Z.min 63 (32 + 8 * a)) = c) by congruence. f_equal. lia.
-  - intros nu a a'. destruct (nu <=? 0); [reflexivity | discriminate].
-  - intros nu x c Hx. destruct (nu <=? 0); [discriminate|]. intros E.
-    assert (Ec : Z.max 1 (Z.min 63 (32 + 8 * - x)) = c) by congruence. lia.
-  - vm_compute. discriminate.
+  - intros nu a a' _ _. destruct (nu <=? 0); [reflexivity | discriminate].
+Qed.
+
+(* WITHOUT end_lo the conclusion is false.  A CDF that is monotone everywhere, with
+   2*cdf(-boring_t) = 18/64 < p_th = 20/64 (boring_t a little too large, as the real one is
+   against the normal limit): one gene at t = -boring_t has exact p = 18/64 < p_th and is the
+   only gene (Holm multiplier 1): the exact route records it, the skipping route does not. *)
+Definition low_t_cdf (nu t : Z) : option Z := Some (Z.max 1 (Z.min 63 (32 + 23 * t))).
+Lemma boring_unsound_without_end_lo :
+  exists (H lo hi T b : Z) (t_cdf : Z -> Z -> option Z) (genes : list gene),
+    0 < H /\ 0 <= lo <= H /\ H <= hi <= 2 * H /\ T <= 2 * H /\ 0 <= b /\
+    (forall nu a a' c c', a <= a' -> t_cdf nu a = Some c -> t_cdf nu a' = Some c' -> c <= c') /\
+    (forall nu a a', t_cdf nu a = None -> t_cdf nu a' = None) /\
+    ~ (forall nu c, t_cdf nu (- b) = Some c -> T <= 2 * c) /\
+    map (fun v => v <? T) (correct_ttest (2 * H) 0 (map (exact_p t_cdf H lo hi) genes)) = [true] /\
+    map (fun v => v <? T) (approx_correct_ttest (2 * H) T (map (skip_p t_cdf H lo hi b) genes)) = [false].
+Proof.
+  exists 32, 1, 63, 20, 1, low_t_cdf, [(5, -1)].
+  split; [lia|]. split; [lia|]. split; [lia|]. split; [lia|]. split; [lia|].
+  split.
+  { unfold low_t_cdf. intros nu a a' c c' Ha E E'.
+    assert (Ec : Z.max 1 (Z.min 63 (32 + 23 * a)) = c) by congruence.
+    assert (Ec' : Z.max 1 (Z.min 63 (32 + 23 * a')) = c') by congruence. lia. }
+  split; [unfold low_t_cdf; discriminate|].
+  split.
+  { intro Hc. specialize (Hc 5 9 eq_refl). lia. }
+  split; vm_compute; reflexivity.
 Qed.
